@@ -421,3 +421,116 @@ func VerifC02_DelayedWrites() {
 	}
 	rt.Reach("delayed-end")
 }
+
+// ---- batch writes and purges through an interface with an exclusively used
+// read cache: the cache never serves what the batch write replaced or the
+// purge removed ----
+
+// c02PurgeStore: the hashmap backend plus a purge built from its own query and
+// delete (the hashmap backend has none; the purging backends are third-party
+// databases outside the encoder's reach).
+type c02PurgeStore struct {
+	*hashmap.HashMap
+}
+
+func (s *c02PurgeStore) Purge(ctx context.Context, q *query.Query, local, internal, shadowDelete bool) (int, error) {
+	it, err := s.HashMap.Query(q, local, internal)
+	if err != nil {
+		return 0, err
+	}
+	var keys []string
+	for r := range it.Next {
+		keys = append(keys, r.DatabaseKey())
+	}
+	if it.Err() != nil {
+		return 0, it.Err()
+	}
+	for _, k := range keys {
+		_ = s.HashMap.Delete(k)
+	}
+	return len(keys), nil
+}
+
+func VerifC02_CachedBatchPurge() {
+	rt.SchedYieldOnly(true)
+	initialized.Set()
+	shuttingDown.UnSet()
+	st, _ := hashmap.NewHashMap("t", "")
+	store := &c02PurgeStore{st.(*hashmap.HashMap)}
+	ctl := newController(&Database{Name: "t"}, store, false)
+	controllersLock.Lock()
+	controllers = map[string]*Controller{"t": ctl}
+	controllersLock.Unlock()
+
+	opts := &Options{Local: true, Internal: true, CacheSize: 4}
+	delayed := rt.Bool("delayed-writes")
+	if delayed {
+		opts.DelayCachedWrites = "t"
+	}
+	cached := NewInterface(opts)
+	plain := NewInterface(&Options{Local: true, Internal: true})
+
+	// t:a enters the cache through a write or a read; t:b is only stored
+	a := &c02Rec{N: 1}
+	a.SetKey("t:a")
+	if rt.Bool("viaPut") {
+		rt.Assert(cached.Put(a) == nil, "cachedbatch/put-ok")
+	} else {
+		rt.Assert(plain.Put(a) == nil, "cachedbatch/plain-put-ok")
+		_, err := cached.Get("t:a")
+		rt.Assert(err == nil, "cachedbatch/first-get-ok")
+	}
+	b := &c02Rec{N: 2}
+	b.SetKey("t:b")
+	rt.Assert(plain.Put(b) == nil, "cachedbatch/plain-put-b-ok")
+
+	wantA, presentA, presentB := int64(1), true, true
+	switch rt.Choice("op", 3) {
+	case 0: // batch write of a new version of t:a
+		a2 := &c02Rec{N: rt.I64("N2")}
+		a2.SetKey("t:a")
+		put := cached.PutMany("t")
+		rt.Assert(put(a2) == nil, "cachedbatch/batch-put-accepted")
+		rt.Assert(put(nil) == nil, "cachedbatch/batch-finished")
+		wantA = a2.N
+	case 1: // purge of everything below t:a
+		n, err := cached.Purge(context.Background(), query.New("t:a"))
+		rt.Assert(err == nil, "cachedbatch/purge-ok")
+		rt.Assert(n == 1, "cachedbatch/purge-count")
+		presentA = false
+	case 2: // purge of the whole database
+		n, err := cached.Purge(context.Background(), query.New("t:"))
+		rt.Assert(err == nil, "cachedbatch/purge-all-ok")
+		rt.Assert(n == 2, "cachedbatch/purge-all-count")
+		presentA, presentB = false, false
+	}
+	if delayed && rt.Bool("flush") {
+		cached.FlushCache()
+	}
+
+	for _, iface := range []*Interface{cached, plain} {
+		if iface == plain && delayed {
+			// other interfaces see delayed writes only after a flush
+			cached.FlushCache()
+		}
+		got, err := iface.Get("t:a")
+		if presentA {
+			rt.Assert(err == nil, "cachedbatch/latest-write-found")
+			if err == nil {
+				rt.Assert(got.(*c02Rec).N == wantA, "cachedbatch/get-returns-latest-write")
+			}
+		} else {
+			rt.Assert(errors.Is(err, ErrNotFound), "cachedbatch/purged-record-not-found")
+			ex, err := iface.Exists("t:a")
+			rt.Assert(err == nil, "cachedbatch/exists-ok")
+			rt.Assert(!ex, "cachedbatch/purged-record-does-not-exist")
+		}
+		_, err = iface.Get("t:b")
+		if presentB {
+			rt.Assert(err == nil, "cachedbatch/untouched-record-found")
+		} else {
+			rt.Assert(errors.Is(err, ErrNotFound), "cachedbatch/purged-b-not-found")
+		}
+	}
+	rt.Reach("cachedbatch-end")
+}
